@@ -13,7 +13,7 @@ import ast
 from typing import Dict, List, Optional, Set
 
 from ..cfg import CFG
-from ..index import AnalysisError, FunctionInfo, ProgramIndex, dotted, norm, short
+from ..index import AnalysisError, FunctionInfo, ProgramIndex, dotted, norm, short, walk_body
 from ..orient import D, T, evaluate, tag_of_bool
 from ..report import Finding, Report
 
@@ -152,6 +152,102 @@ def rule_orientation(idx: ProgramIndex, rep: Report):
         rep.error(f"only {decided} orientation sinks could be decided (expected >= 20): tag rules blind")
 
 
+SIZE_MARKERS = ("size(", "shape[", "max_cholesky_size", "numel(")
+
+
+def _size_dispatching(fn: FunctionInfo) -> Optional[str]:
+    """The parameter p (default None) of fn whose absence makes the function CHOOSE its algorithm by a size comparison - in
+    its own body (if / conditional expression / table) or in a helper of the class whose result is bound to p (the
+    decomposition dispatchers: exact below settings.max_cholesky_size, truncated Lanczos above)."""
+    dfl = fn.defaults()
+    for p in fn.params():
+        d = dfl.get(p)
+        if not (isinstance(d, ast.Constant) and d.value is None):
+            continue
+        tested = [n for n in walk_body(fn) if isinstance(n, ast.Compare) and norm(n) in (f"{p} is None", f"{p} is not None")]
+        if not tested:
+            continue
+        # what p is bound to inside the function
+        bound = [x.value for x in walk_body(fn) if isinstance(x, ast.Assign) and any(isinstance(t, ast.Name) and t.id == p for t in x.targets)]
+        # locals the bound values are computed from (is_small = self.size(-1) <= ...; method = TABLE[is_small])
+        seen_names: Set[str] = set()
+        for _ in range(3):
+            for v in list(bound):
+                for x in ast.walk(v):
+                    if isinstance(x, ast.Name) and x.id not in seen_names and x.id != p:
+                        seen_names.add(x.id)
+                        bound += [y.value for y in walk_body(fn) if isinstance(y, ast.Assign)
+                                  and any(isinstance(t, ast.Name) and t.id == x.id for t in y.targets)]
+        regions: List[ast.AST] = list(bound)
+        for v in bound:
+            for c in ast.walk(v):
+                if isinstance(c, ast.Call) and isinstance(c.func, ast.Attribute) and isinstance(c.func.value, ast.Name) \
+                        and c.func.value.id == "self" and fn.cls is not None:
+                    h = fn.cls.methods.get(c.func.attr)
+                    if h is not None:
+                        regions.append(h.node)
+        # an if-statement that assigns p in its branches
+        for n in walk_body(fn):
+            if isinstance(n, ast.If) and any(isinstance(x, ast.Assign) and any(isinstance(t, ast.Name) and t.id == p for t in x.targets)
+                                             for b_ in (n.body, n.orelse) for st in b_ for x in ast.walk(st)):
+                regions.append(n.test)
+        for r in regions:
+            for x in ast.walk(r):
+                if isinstance(x, (ast.If, ast.IfExp)) and any(k in norm(x.test) for k in SIZE_MARKERS):
+                    return p
+                if isinstance(x, ast.Compare) and any(k in norm(x) for k in SIZE_MARKERS) and r in bound + [n_.test for n_ in walk_body(fn) if isinstance(n_, ast.If)]:
+                    return p
+            if isinstance(r, ast.expr) and any(k in norm(r) for k in SIZE_MARKERS) and not isinstance(r, ast.Call):
+                return p
+    return None
+
+
+SAME_OBJECT_CONVERSIONS = {"to", "double", "float", "half", "type", "detach", "clone", "evaluate_kernel", "cpu", "cuda", "contiguous"}
+
+
+def rule_direct_routes(idx: ProgramIndex, rep: Report):
+    """A solve-family definition that decomposes `self` must not let the decomposition pick its algorithm by SIZE: calling
+    self.diagonalization() / self.root_decomposition() ... without method= where the method resolves, on that class, to a
+    size-dispatching definition turns the direct solve into a truncated Lanczos approximation above max_cholesky_size."""
+    rep.rule("C04.D", "direct solve routes do not hand the choice of decomposition to a size threshold", floor=20)
+    dispatchers = {}
+    for fn in idx.operator_base().methods.values():
+        p = _size_dispatching(fn)
+        if p is not None:
+            dispatchers[fn.name] = p
+    rep.analysed["size_dispatching_decompositions"] = dict(dispatchers)
+    if len(dispatchers) < 1:
+        raise AnalysisError(f"size-dispatching decompositions not recognised on the base class (found {sorted(dispatchers)})")
+    for c in idx.operator_classes():
+        for mname, fn in c.methods.items():
+            if not ("solve" in mname or mname in ("_inv_matmul", "inv_matmul")):
+                continue
+            sites = []
+            for n in walk_body(fn):
+                if not (isinstance(n, ast.Call) and isinstance(n.func, ast.Attribute) and n.func.attr in dispatchers):
+                    continue
+                recv = n.func.value
+                while isinstance(recv, ast.Call) and isinstance(recv.func, ast.Attribute) and recv.func.attr in SAME_OBJECT_CONVERSIONS:
+                    recv = recv.func.value
+                if not (isinstance(recv, ast.Name) and recv.id == "self"):
+                    continue
+                p = dispatchers[n.func.attr]
+                if n.args or any(k.arg == p for k in n.keywords):
+                    continue
+                target = idx.resolve_method(c, n.func.attr)
+                if target is not None and _size_dispatching(target) is not None:
+                    sites.append(n)
+            sample = {"definition": f"{c.name}.{mname}", "size_dispatched_decompositions_of_self": len(sites)}
+            if not sites:
+                rep.ok("C04.D", sample)
+            for n in sites:
+                rep.bad("C04.D", Finding(PROP, "C04.D", f"{c.name}.{mname}", norm(n),
+                                         f"{c.name}.{mname} decomposes the operator with `{short(n, 60)}`, which on {c.name} resolves to the "
+                                         "size-dispatching base definition: above settings.max_cholesky_size the 'direct' solve is a "
+                                         "truncated Lanczos approximation, so the answer depends on the algorithm the threshold selects",
+                                         fn.loc(n)), sample)
+
+
 def run(idx: ProgramIndex, rep: Report, tier: str, selftest: bool = True):
     rep.extra["explanation"] = (
         "Two structural necessary conditions of 'solve returns L A^-1 B'. (L) For every solve/_inv_matmul definition "
@@ -179,6 +275,14 @@ def run(idx: ProgramIndex, rep: Report, tier: str, selftest: bool = True):
 
     rep.rule("C04.T", "the CG route stops on the true residual norm, under the tolerance test, and warns otherwise", floor=5)
     stopping_rules_for(idx, rep, PROP, "C04.T")
+
+    # ---------------------------------------------------------------- D
+    rule_direct_routes(idx, rep)
+    # ---------------------------------------------------------------- S
+    # a solve-family definition that takes a specification-bearing parameter (upper, left_tensor ...) reads or forwards it
+    from .c06 import rule_spec_params
+
+    rule_spec_params(idx, rep, prop=PROP, rule="C04.S", only=lambda m: "solve" in m or m in ("_inv_matmul", "inv_matmul"), floor=15)
 
     if selftest:
         from ..selftest import run_fixtures
